@@ -38,7 +38,12 @@ def catalogue(rng):
     ft = rng.choice(["'|'", "';'", "'$'"])
     eng = rng.choice(["InnoDB", "MyISAM"])
     cs = rng.choice(["utf8", "latin1", "utf8mb4"])
-    ts = rng.choice(["users", "TS_1", "data01"])
+    from vf.gen import vocab
+    tricky = vocab.tricky_names()
+    ts = rng.choice(["users", "TS_1", "data01", tricky[rng.randrange(len(tricky))], tricky[rng.randrange(len(tricky))]])
+    # after TABLESPACE every word except IF is a name on the pinned tree (calibrated), keyword-shaped ones included
+    ts_ora = rng.choice([ts, ts] + [k.lower() for k in vocab.grammar_keywords() if k != "IF"][rng.randrange(3)::3][:40])
+    parent = rng.choice(["parent2", tricky[rng.randrange(len(tricky))]])
     fg = rng.choice(["[PRIMARY]", "fg1", "[FG_2]"])
     ds = rng.choice(["KEY", "ALL", "EVEN"])
     col = rng.choice(["a", "b"])
@@ -67,7 +72,7 @@ def catalogue(rng):
         ]),
         "oracle": (True, [
             [C("organization_index", "ORGANIZATION INDEX", {"organization_index": True})],
-            [C("tablespace", "TABLESPACE " + ts, {"tablespace": {"tablespace_name": ts, "properties": None, "type": None, "temporary": False}}, "common")],
+            [C("tablespace", "TABLESPACE " + ts_ora, {"tablespace": {"tablespace_name": ts_ora, "properties": None, "type": None, "temporary": False}}, "common")],
             [C("storage", "STORAGE (INITIAL 64K NEXT 1M)", {"storage": {"initial": "64K", "next": "1M"}}),
              C("storage", "STORAGE (INITIAL 5M)", {"storage": {"initial": "5M"}})],
         ]),
@@ -99,7 +104,7 @@ def catalogue(rng):
         ]),
         "postgres": (True, [
             [C("inherits", "INHERITS (s.parent)", {"inherits": {"schema": "s", "table_name": "parent"}}),
-             C("inherits", "INHERITS (parent2)", {"inherits": {"schema": None, "table_name": "parent2"}})],
+             C("inherits", "INHERITS (%s)" % parent, {"inherits": {"schema": None, "table_name": parent}})],
             [C("partition_by", "PARTITION BY RANGE (a)", {"partition_by": {"columns": ["a"], "type": "RANGE"}}, "common"),
              C("partition_by", "PARTITION BY HASH (a, b)", {"partition_by": {"columns": ["a", "b"], "type": "HASH"}}, "common")],
         ]),
@@ -108,7 +113,7 @@ def catalogue(rng):
         ]),
         "ibm_db2": (True, [
             [C("tablespace", "IN " + ts, {"tablespace": ts}, "common")],
-            [C("index_in", "INDEX IN ts2", {"index_in": "ts2"})],
+            [C("index_in", "INDEX IN " + ts + "_ix", {"index_in": ts + "_ix"})],
             [C("organize_by", "ORGANIZE BY ROW", {"organize_by": "ROW"})],
         ]),
     }
